@@ -714,7 +714,7 @@ pub fn run_loom(
 ) -> LoomRun {
     let mut b = builder_from(cfg);
     // harness iteration cap, unless the run configures these limits itself
-    let harness_cap = cfg.max_permutations.is_none();
+    let harness_cap = cfg.max_permutations.is_none() && cfg.checkpoint_file.is_none();
     if harness_cap {
         b.checkpoint_interval = 1;
         b.max_permutations = Some(cfg.iter_cap + 1);
